@@ -146,11 +146,26 @@ def run_line(spec) -> Result:
 
 
 def check_record(res, fmt, spec, args, tag):
+    payload = dict(args)
+    rec = make_record(spec["name"], payload, spec["created"])
     try:
-        out = fmt.format(make_record(spec["name"], dict(args), spec["created"]))
+        out = fmt.format(rec)
+        # a record passes through every handler of the monitor logger: formatting it again - by the same formatter or as
+        # JSON - must give the same account of the record
+        again = fmt.format(rec)
+        as_json = JsonFormatter().format(rec)
     except Exception as e:
         res.fail("format-raises", f"{tag}: {type(e).__name__}: {e} for {spec}")
         return
+    if again != out:
+        res.fail("second-formatting-differs", f"{tag}: the same record formatted twice: {out!r} then {again!r}")
+    try:
+        decoded = json.loads(as_json)
+        missing = {k: v for k, v in args.items() if k not in decoded or decoded[k] != json.loads(json.dumps(v))}
+        if missing or decoded.get("message") != spec["name"]:
+            res.fail("json-after-line", f"{tag}: JSON formatting of the record after line formatting lacks {missing!r} (message {decoded.get('message')!r}): {as_json!r}")
+    except ValueError as e:
+        res.fail("json-unparseable", f"{tag}: {e}: {as_json!r}")
     whitelist = set(spec["tag_keys"])
     want_tags = {k: str(v) for k, v in spec["defaults"].items()}
     want_tags.update({k: str(v) for k, v in args.items() if k in whitelist})
@@ -214,11 +229,15 @@ def run_json(spec) -> Result:
         fmt = JsonFormatter(fmt=spec["defaults"], datefmt=spec["datefmt"])
         if spec.get("earlier") is not None:  # the same formatter instance served another record before
             fmt.format(make_record("earlier", dict(spec["earlier"]), spec["created"]))
-        rec = make_record(spec["msg"], dict(spec["data"]), spec["created"])
+        payload = dict(spec["data"])
+        rec = make_record(spec["msg"], payload, spec["created"])
         out = fmt.format(rec)
+        again = fmt.format(rec)
     except Exception as e:
         res.fail("format-raises", f"{type(e).__name__}: {e} for {spec}")
         return res
+    if again != out:
+        res.fail("second-formatting-differs", f"the same record formatted twice: {out!r} then {again!r}")
     want = dict(spec["defaults"] or {})
     if spec["datefmt"] is None or spec["datefmt"]:
         want["time"] = logging.Formatter(datefmt=spec["datefmt"]).formatTime(make_record(spec["msg"], {}, spec["created"]), spec["datefmt"])
